@@ -4,7 +4,7 @@
    Clause of the property text                          -> theorem
    -----------------------------------------------------------------------------------------------
    SEQUENTIAL (every history of create/null/copy/fromraw/assign/assignraw/assignval/reset/swap/write/
-   detach/destroy on the handle variables of String | Variant | RefCount::Ptr | Xml::Variant; the value
+   detach/resize/reserve/destroy on the handle variables of String | Variant | RefCount::Ptr | Xml::Variant; the value
    of a payload is its contents, RcModel.push):
    counter = number of live handles referring to b      -> seq_count_is_number_of_handles
    released exactly once                                -> seq_released_exactly_once, seq_release_is_final
@@ -44,10 +44,30 @@
    machine (so everything above holds of the state it reaches)
                                                         -> conc_accepted_trace_is_a_run, conc_accepted_event_means
    Not covered by a theorem (validated by correspondence only): the values read through the
-   handles in the CONCURRENT machine (compared with the value-semantics Spec on every case). *)
+   handles in the CONCURRENT machine (compared with the value-semantics Spec on every case).
+
+   HANDLES STORED INSIDE PAYLOADS (machine RcNest: RefCount::Ptr handles to a pointee type with a Ptr member
+   `next`; locations <variable, depth> = the variable or the member of the object reached through depth-1
+   `->next` steps; every history of create/null/copy/assign (same-type, converting, operator=(C* ))/reset/
+   destroy over such locations, so the source of an assignment may be stored inside the object the target
+   is the last handle of, the target may be a member handle, and releases cascade):
+   the invariant (init, every step)                     -> nest_invariant_init, nest_invariant_step
+   counter = handles in variables + handles inside objects that exist
+                                                        -> nest_count_is_number_of_handles
+   released exactly once                                -> nest_released_exactly_once, nest_release_is_final
+   ... exactly when no handle - in a variable or inside an object that exists - refers to it (so the
+   release of the last outer handle cascades down the chain, and stops at an object that has another handle)
+                                                        -> nest_released_iff_no_handle_left
+   never released while a handle refers to it; no access to a released object, neither by an operation nor
+   by following the chains from the variables afterwards; the recursion of the release never runs out of fuel
+                                                        -> nest_no_handle_to_released_object, nest_no_fault
+   the code as written before fixes/C09/02 (operator= reads `other` again after the release) does access a
+   released object on `cur = cur->next`                 -> nest_assign_as_written_refuted
+   Not covered by a theorem (validated by correspondence only): that the Model computes the same objects,
+   chains and destructions as the counter-free reference object RcNest.pstep (sweep of objects without a handle). *)
 From Coq Require Import ZArith List Bool Arith.
 From Common Require Import ListAux.
-From Rc Require Import RcModel RcSpec RcProofs RcSeq RcRefine RcConc RcConcProofs RcExamples.
+From Rc Require Import RcModel RcSpec RcProofs RcSeq RcRefine RcConc RcConcProofs RcNest RcNestProofs RcExamples.
 Import ListNotations.
 Local Open Scope Z_scope.
 
@@ -274,3 +294,80 @@ Example ex_trace_rejected :
   snd (replay (cinit FStr 3 1 ex_trace_cfg) ex_trace_bad_order) = [ev 0 ECopy 0; ev 0 EFree 0]
   /\ snd (replay (cinit FStr 3 1 ex_trace_cfg) ex_trace_no_free) = [ev 0 EReadRef 1; ev 0 EWrite 202].
 Proof. vm_compute. split; reflexivity. Qed.
+
+(* ================================ handles stored inside payloads ==================================== *)
+Theorem nest_invariant_init : NInv ninit.
+Proof. exact NInv_ninit. Qed.
+Print Assumptions nest_invariant_init.
+
+Theorem nest_invariant_step : forall s o, NInv s -> NInv (nstep s o).
+Proof. exact nstep_NInv. Qed.
+Print Assumptions nest_invariant_step.
+
+Theorem nest_no_fault : forall ops, nflt (nrun ops) = None /\ nflt (nobs_touch (nrun ops)) = None.
+Proof. exact nhist_no_fault. Qed.
+Print Assumptions nest_no_fault.
+
+Theorem nest_count_is_number_of_handles : forall ops b,
+  (b < length (nheap (nrun ops)))%nat -> nfreed (ngetb (nrun ops) b) = false ->
+  nrc (ngetb (nrun ops) b) = nhandles (nrun ops) b /\ 1 <= nrc (ngetb (nrun ops) b) /\ ndtors (ngetb (nrun ops) b) = 0%nat.
+Proof. exact nhist_count. Qed.
+Print Assumptions nest_count_is_number_of_handles.
+
+Theorem nest_released_iff_no_handle_left : forall ops b, (b < length (nheap (nrun ops)))%nat ->
+  (nfreed (ngetb (nrun ops) b) = true <-> nhandles (nrun ops) b = 0).
+Proof. exact nhist_released_iff. Qed.
+Print Assumptions nest_released_iff_no_handle_left.
+
+Theorem nest_released_exactly_once : forall ops b, (b < length (nheap (nrun ops)))%nat ->
+  ndtors (ngetb (nrun ops) b) = if nfreed (ngetb (nrun ops) b) then 1%nat else 0%nat.
+Proof. exact nhist_released_once. Qed.
+Print Assumptions nest_released_exactly_once.
+
+Theorem nest_release_is_final : forall ops more b, (b < length (nheap (nrun ops)))%nat ->
+  (b < length (nheap (nrun (ops ++ more))))%nat /\
+  (ndtors (ngetb (nrun ops) b) <= ndtors (ngetb (nrun (ops ++ more)) b) <= 1)%nat /\
+  (nfreed (ngetb (nrun ops) b) = true -> nfreed (ngetb (nrun (ops ++ more)) b) = true).
+Proof. exact nhist_release_final. Qed.
+Print Assumptions nest_release_is_final.
+
+Theorem nest_no_handle_to_released_object : forall ops,
+  (forall v b, ngetv (nrun ops) v = NLive (HBlock b) -> (b < length (nheap (nrun ops)))%nat /\ nfreed (ngetb (nrun ops) b) = false) /\
+  (forall k b, (k < length (nheap (nrun ops)))%nat -> nfreed (ngetb (nrun ops) k) = false -> nnext (ngetb (nrun ops) k) = HBlock b ->
+               (b < length (nheap (nrun ops)))%nat /\ nfreed (ngetb (nrun ops) b) = false).
+Proof. exact nhist_no_dangling. Qed.
+Print Assumptions nest_no_handle_to_released_object.
+
+Theorem nest_assign_as_written_refuted :
+  nflt (nrun_as_written [NCreate 0 1; NAssign AConv 0 0 0 1]) = Some (NUaf 0) /\
+  nflt (nrun_as_written [NCreate 0 1; NAssign ASame 0 0 0 1]) = Some (NUaf 0) /\
+  nflt (nrun [NCreate 0 1; NAssign AConv 0 0 0 1]) = None.
+Proof. exact nassign_as_written_refuted. Qed.
+Print Assumptions nest_assign_as_written_refuted.
+
+(* ---- non-vacuity ---------------------------------------------------------------------------------- *)
+(* the chain 0 -> 1 -> 2 held by variable 0 alone: every counter is 1 = one handle, two of them inside payloads *)
+Example ex_nest_chain_counts :
+  map (fun k => (nrc k, nfreed k, nnext k)) (nheap (nrun ex_nest_chain)) = [(1, false, HBlock 1); (1, false, HBlock 2); (1, false, HNone)]
+  /\ map (nhandles (nrun ex_nest_chain)) [0; 1; 2]%nat = [1; 1; 1]
+  /\ nobs (nrun ex_nest_chain) = [NOChain [(0%nat, 10, 1); (1%nat, 11, 1); (2%nat, 12, 1)]; NODead; NODead; NODead].
+Proof. vm_compute. repeat split. Qed.
+(* cur = cur->next twice: each step releases exactly the object left behind, once; the object cur ends up with stays *)
+Example ex_nest_walk_releases :
+  map (fun k => (nrc k, nfreed k, ndtors k)) (nheap (nrun ex_nest_walk)) = [(0, true, 1%nat); (0, true, 1%nat); (1, false, 0%nat)]
+  /\ map (fun k => (nfreed k, ndtors k)) (nheap (nrun (firstn 8 ex_nest_walk))) = [(true, 1%nat); (false, 0%nat); (false, 0%nat)]
+  /\ nobs (nrun ex_nest_walk) = [NOChain [(2%nat, 12, 1)]; NODead; NODead; NODead]
+  /\ nflt (nrun_as_written ex_nest_walk) = Some (NUaf 0).
+Proof. vm_compute. repeat split. Qed.
+(* a->next = a->next->next releases the middle object only; destroying the variable then cascades over the rest *)
+Example ex_nest_unlink_and_cascade :
+  map (fun k => (nrc k, nfreed k, ndtors k)) (nheap (nrun ex_nest_unlink)) = [(1, false, 0%nat); (0, true, 1%nat); (1, false, 0%nat)]
+  /\ map (fun k => (nfreed k, ndtors k)) (nheap (nrun (ex_nest_unlink ++ [NDestroy 0]))) = [(true, 1%nat); (true, 1%nat); (true, 1%nat)]
+  /\ map (fun k => (nfreed k, ndtors k)) (nheap (nrun (ex_nest_chain ++ [NCopy 1 0 2; NDestroy 0]))) = [(true, 1%nat); (true, 1%nat); (false, 0%nat)].
+Proof. vm_compute. repeat split. Qed.
+(* a cycle keeps itself: no variable is left, every object still has a handle inside another one, none is released *)
+Example ex_nest_cycle_stays :
+  map (fun k => (nrc k, nfreed k)) (nheap (nrun ex_nest_cycle)) = [(1, false); (1, false); (1, false)]
+  /\ nvars (nrun ex_nest_cycle) = [NDead; NLive HNone; NDead; NDead]
+  /\ map (nhandles (nrun ex_nest_cycle)) [0; 1; 2]%nat = [1; 1; 1].
+Proof. vm_compute. repeat split. Qed.
